@@ -320,7 +320,9 @@ func (s *Sim) checkRuleScope(ctx *StepCtx) {
 			continue
 		}
 		switch r.Op {
-		case "add-update", "del", "report", "get":
+		case "add-update", "del", "report":
+			// GETs are reads the driver makes on its own behalf; the property speaks of
+			// Update, Remove and Query operations.
 		default:
 			continue
 		}
@@ -354,14 +356,13 @@ func (s *Sim) checkRuleScope(ctx *StepCtx) {
 }
 
 func (s *Sim) checkAnswer(ctx *StepCtx) {
-	u := ctx.Dg.Up
 	mode := ctx.Dg.Ans.Mode
-	if mode == "seid0" && ctx.Target != nil {
+	if ctx.Matched != nil && ctx.Target != nil {
 		// removal of exactly that session is checked by checkGlobal; nothing else may change
-		s.checkIsolation2(ctx, map[uint64]bool{ctx.Target.UP: true}, fmt.Sprintf("Session Report Response with SEID 0 for request seq=%d", u.Seq))
+		s.checkIsolation2(ctx, map[uint64]bool{ctx.Target.UP: true}, fmt.Sprintf("Session Report Response with SEID 0 for request seq=%d", ctx.Matched.Seq))
 		return
 	}
-	why := fmt.Sprintf("Session Report Response (%s) for request seq=%d", mode, u.Seq)
+	why := fmt.Sprintf("Session Report Response (%s, seq=%d) that removes no session", mode, ctx.Dg.Up.Seq)
 	s.noTrace(ctx, []string{"C09", "C05"}, why)
 }
 
